@@ -68,7 +68,14 @@ Sets == {"a0", "a1", "anull", "bx", "bnull"}
 RECURSIVE AddRows(_, _)
 AddRows(bag, rows) == IF rows = <<>> THEN bag ELSE AddRows(BagAdd(bag, KindOf(Head(rows)), 1), Tail(rows))
 
-Steps(st, op, D) ==
+\* how a DML statement reaches fakesnow: "x" cursor.execute with literals (the default when the field is absent), "bind" with
+\* every text value as a bound pyformat parameter, "s" as a one-statement script through connection.execute_string (status read
+\* from the returned cursor), "sn" through execute_string(..., return_cursors=False): the effect is the same, no status is seen
+How(op) == IF "how" \in DOMAIN op THEN op.how ELSE "x"
+Blind(o) == [o EXCEPT !.status = <<>>, !.cols = <<>>, !.rc = 0]
+Seen(op, S) == IF How(op) = "sn" THEN {[x EXCEPT !.obs = Blind(@)] : x \in S} ELSE S
+
+Steps0(st, op, D) ==
   CASE op.k = "setup" ->
          \* the driver creates t and u with the given contents (through the raw cursor)
          LET s2 == [t |-> AddRows(EmptyBag, op.t), u |-> AddRows(EmptyBag, op.u), made |-> TRUE] IN
@@ -110,6 +117,8 @@ Steps(st, op, D) ==
          (IF "C04.comment_status_is_count" \in D /\ op.what \in {"commenton", "setcomment"}
           THEN {R(st, [o EXCEPT !.res = "1"])} ELSE {})
 
+Steps(st, op, D) == Seen(op, Steps0(st, op, D))
+
 \* ---- generator vocabulary ----
 CONSTANTS MaxRows, PredSet, InsSel
 InsRows == IF InsSel = "few" THEN {<< <<0, "x">> >>, << <<NULLI, NULLS>>, <<1, "x">> >>, << <<0, "x">>, <<0, "x">> >>}
@@ -131,12 +140,17 @@ Ops(st) ==
   ELSE (IF Size(st.t) + 2 <= MaxRows + 2 THEN [k : {"insv"}, rows : InsRows, cl : {"none", "ab", "ba", "a"}] ELSE {})
        \cup [k : {"inss"}, p : Preds] \cup [k : {"upd"}, p : Preds, s : Sets] \cup [k : {"del"}, p : Preds]
        \cup [k : {"trunc"}]
+       \* the other ways of executing a statement, over a small part of the statement space
+       \cup [k : {"del"}, p : [t : {"atom"}, p : {"b=x", "b<>x", "a=0", "false"}], how : {"bind", "s", "sn"}]
+       \cup [k : {"upd"}, p : [t : {"atom"}, p : {"b=x", "anull", "false"}], s : {"bx", "a1"}, how : {"bind", "s", "sn"}]
+       \cup [k : {"inss"}, p : [t : {"atom"}, p : {"b=x", "true", "false"}], how : {"bind", "s", "sn"}]
+       \cup (IF Size(st.t) <= MaxRows THEN [k : {"insv"}, rows : InsRows, cl : {"none"}, how : {"bind", "s", "sn"}] ELSE {})
        \cup {[k |-> "ddl", what |-> d.what, q |-> d.q, sp |-> d.sp, name |-> NameOf(d.sp)] : d \in DdlOps}
 
 \* ---- C04 on the model: per-step clauses ----
 StepOk(st, op, r) ==
   /\ r.post.u = st.u \/ op.k = "setup"                                      \* the bystander never changes
-  /\ (op.k \in {"inss", "upd", "del", "insv"} =>
+  /\ (op.k \in {"inss", "upd", "del", "insv"} /\ How(op) # "sn" =>
          /\ r.obs.rc = r.obs.status[1]                                       \* rowcount = status count
          /\ (op.k = "del" => r.obs.status[1] = Size(st.t) - Size(r.post.t))  \* true number of rows removed
          /\ (op.k \in {"insv", "inss"} => r.obs.status[1] = Size(r.post.t) - Size(st.t))
